@@ -995,6 +995,8 @@ class HistogramBase(abc.ABC):
         if np.isscalar(other):
             array = np.asarray(other)
             scalar = cast(float, other)
+            if isinstance(scalar, np.integer):
+                scalar = int(scalar)  # scalar**2 must not wrap in a narrow type
             try:
                 self._coerce_dtype(array.dtype)
             except ValueError as v:
@@ -1029,6 +1031,8 @@ class HistogramBase(abc.ABC):
             raise TypeError("Division of two histograms is not supported.")
         elif np.isscalar(other):
             self._coerce_dtype(np.promote_types(np.float64, np.asarray(other).dtype))
+            if isinstance(other, np.integer):
+                other = int(other)  # other**2 must not wrap in a narrow type
             self.frequencies = self.frequencies / other
             self.errors2 = self.errors2 / other**2
             self._missed /= other
